@@ -1,6 +1,6 @@
 (* C18 — feature grammars: the exact oracles applied to the instantiated grammars and to returned trees. *)
 From Coq Require Import List NArith.
-From PFL Require Import Base.ListSet Spec.Cfg Oracle.CfgTree Oracle.CfgMember Oracle.CfgMemberSound.
+From PFL Require Import Base.ListSet Spec.Cfg Oracle.CfgTree Oracle.CfgMember Oracle.CfgMemberSound Model.Feat Proofs.FeatGlb.
 
 Theorem C18_member_oracle : forall (Vr : Type) (E : EqDec Vr) (G : cfg Vr) (w : list N),
   cfg_member G w = true <-> LangG G w.
@@ -11,3 +11,29 @@ Theorem C18_tree_checker : forall (Vr : Type) (E : EqDec Vr) (G : cfg Vr) (t : t
   tree_ok G t = true -> valid_tree G t /\ derives G (root t) (yield t).
 Proof. intros Vr E G t H. split; [exact (tree_ok_sound G t H)|exact (valid_tree_derives G t (tree_ok_sound G t H))]. Qed.
 Print Assumptions C18_tree_checker.
+
+(* unification of feature structures without sharing (the model mirrored from FeatureStructure.unify): for consistently typed
+   structures (a value only on a node without features; never an atomic value facing a complex node: wt, ct) and enough fuel, the
+   result is the least upper bound of both arguments in the subsumption order, i.e. the most general structure carrying the
+   information of both; when there is no result the two structures carry conflicting atomic values at the end of a shared path *)
+Theorem C18_unify_glb : forall (n : nat) (a b : fs), depth b <= n -> wt a -> wt b -> ct a b ->
+  match unify n a b with
+  | Some c => sub a c /\ sub b c /\ (forall d, sub a d -> sub b d -> sub c d) /\ wt c
+  | None => conflict a b
+  end.
+Proof. exact unify_glb. Qed.
+Print Assumptions C18_unify_glb.
+
+Theorem C18_unify_succeeds_iff : forall (n : nat) (a b : fs), depth b <= n -> wt a -> wt b -> ct a b ->
+  (unify n a b <> None <-> ~ conflict a b) /\ (unify n a b = None <-> forall d, ~ (sub a d /\ sub b d)).
+Proof. exact unify_succeeds_iff. Qed.
+Print Assumptions C18_unify_succeeds_iff.
+
+Theorem C18_unify_order_independent : forall (n : nat) (a b : fs), depth a <= n -> depth b <= n -> wt a -> wt b -> ct a b ->
+  match unify n a b, unify n b a with
+  | Some c, Some c' => sub c c' /\ sub c' c
+  | None, None => True
+  | _, _ => False
+  end.
+Proof. exact unify_order_independent. Qed.
+Print Assumptions C18_unify_order_independent.
